@@ -182,3 +182,71 @@ Section Skeletons.
       destruct (run_failure (String a fg) s2) as [[|[n' m' e'|[| | |c'|c']]|c'|] s3]; reflexivity.
   Qed.
 End Skeletons.
+
+(** * pypyr/dsl.py :: Step — the decorator layer *)
+Section StepSkeletons.
+  Variable rg : list val -> option string -> option string -> st -> R.
+  Variable rp : string -> option (list string) -> option (list val) -> option string -> option string -> st -> R.
+
+  (** how the primitives the translator leaves abstract are instantiated by the model *)
+  Definition reset_prim (sp : step) (k : counters) (call : outcome) (s : st) : R :=
+    match exn_cof call with
+    | Some c => (OOk, reset_counters sp k c s)
+    | None => (OUnsup, s)
+    end.
+  Definition save_error_prim (sp : step) (e : outcome) (sw : bool) (s : st) : R :=
+    match e with
+    | ORaise (RExn n m i) => save_error sp n m i sw s
+    | _ => (OUnsup, s)
+    end.
+
+  (** [Step.invoke_step] *)
+  Lemma gen_invoke_step_is_model sp k s :
+    gen_invoke_step (run_body rp sp) rg (reset_prim sp k) s = invoke rg rp sp k s.
+  Proof.
+    unfold gen_invoke_step, invoke. rewrite andthen_ok_id.
+    destruct (run_body rp sp s) as [[|[n m e|[| | |c|c]]|c|] s1]; try reflexivity.
+    (* Call *)
+    cbv beta iota zeta. change (isinst errors_classes (ORaise (RSig (SCall c))) ["Call"]) with true.
+    cbv iota. rewrite andthen_ok_id.
+    unfold reset_prim, exn_groups, exn_success_group, exn_failure_group, exn_cof. cbv iota.
+    destruct (rg (c_groups c) (c_success c) (c_failure c) s1) as [[|[n m e|[| | |c'|c']]|c'|] s2];
+      reflexivity.
+  Qed.
+
+  (** [Step.run_conditional_decorators] *)
+  Lemma gen_run_conditional_decorators_is_model sp k s :
+    gen_run_conditional_decorators sp (run_body rp sp) rg (reset_prim sp k)
+      (fun rc => retry_loop rg rp rc sp k) (save_error_prim sp) s
+    = cond rg rp sp k s.
+  Proof.
+    unfold gen_run_conditional_decorators, cond.
+    destruct (as_bool s (s_run sp)) as [run_me|n m|]; try reflexivity. simpl lift.
+    destruct run_me; [|reflexivity]. simpl negb. cbv iota.
+    destruct (as_bool s (s_skip sp)) as [skip_me|n m|]; try reflexivity. simpl lift.
+    destruct skip_me; [reflexivity|]. simpl negb. cbv iota.
+    assert (E : match s_retry sp with
+                | Some rd => andthen (retry_loop rg rp rd sp k s) (fun s5 => (OOk, s5))
+                | None => andthen (gen_invoke_step (run_body rp sp) rg (reset_prim sp k) s) (fun s6 => (OOk, s6))
+                end
+                = match s_retry sp with
+                  | Some rc => retry_loop rg rp rc sp k s
+                  | None => invoke rg rp sp k s
+                  end).
+    { destruct (s_retry sp); rewrite andthen_ok_id; [reflexivity|apply gen_invoke_step_is_model]. }
+    rewrite E. clear E.
+    destruct (match s_retry sp with Some rc => _ | None => _ end) as [[|[n m e|[| | |c|c]]|c|] s1];
+      try reflexivity.
+  Qed.
+
+  (** [Step.run_foreach_or_conditional] *)
+  Lemma gen_run_foreach_or_conditional_is_model sp k s :
+    gen_run_foreach_or_conditional sp (run_body rp sp) rg (reset_prim sp k)
+      (fun rc => retry_loop rg rp rc sp k) (save_error_prim sp) (foreach_loop rg rp sp k) s
+    = foreach_or_cond rg rp sp k s.
+  Proof.
+    unfold gen_run_foreach_or_conditional, foreach_or_cond.
+    destruct (has_foreach sp); rewrite andthen_ok_id; [reflexivity|].
+    apply gen_run_conditional_decorators_is_model.
+  Qed.
+End StepSkeletons.
